@@ -336,10 +336,7 @@ def _run(ctx):
             ios = p.io()
             if not ios:
                 continue
-            val = None
-            for t, v in p.cons:
-                if t == ios[0][-1]:
-                    val = v
+            val = util.scrutinee_constraint(p, ios[0][-1])
             if isinstance(val, int):
                 codes.add(val)
                 if val == 0 and is_agg(p.ret, None, 'Ok'):
